@@ -330,7 +330,7 @@ pub fn run(t: &[&str]) -> String {
                 format!("{}{}", i, if s.is_none() { "(create failed)" } else { "" }) }).collect();
             if bad.is_empty() { format!("{} same", first_view) } else { format!("{} diff:{}", first_view, bad.join(",")) }
         }
-        ["pairv", params, n, files @ ..] => {
+        ["pairv" | "pairn", params, n, files @ ..] => {
             let n: usize = n.parse().unwrap();
             let d = tmpdir();
             let a = create_and_view(params, &d.path().join("a"), &files[..n]).0;
